@@ -360,7 +360,7 @@ func (r *Run) checkPresenceGuard(id string, fns []*ssa.Function, uriField string
 					return false
 				}
 			}
-			return bo.Op == token.GTR || bo.Op == token.NEQ || bo.Op == token.LSS || bo.Op == token.EQL
+			return bo.Op == token.GTR || bo.Op == token.NEQ || bo.Op == token.LSS || bo.Op == token.EQL || bo.Op == token.LEQ || bo.Op == token.GEQ
 		}
 		for _, b := range f.Blocks {
 			for _, s := range b.Succs {
@@ -539,7 +539,6 @@ func runC14(r *Run) {
 	}
 	if f := r.fn(P, pkgProvider, "OperationProvider.validateOperationReference"); f != nil {
 		r.requireSucc(P+".elem.reference", "an operation reference needs a suffix and a reveal value within the hash length", f, core.Ctx{}, "",
-			"ok(validateRequiredMultihash(_, $1.DidSuffix, _))", "ok(validateRequiredMultihash(_, $1.RevealValue, _))",
 			`cmp($1.DidSuffix != "")`, `cmp($1.RevealValue != "")`,
 			"cmp($0.Protocol.MaxOperationHashLength >= len($1.DidSuffix))", "cmp($0.Protocol.MaxOperationHashLength >= len($1.RevealValue))")
 	}
@@ -1185,6 +1184,12 @@ func (r *Run) checkPresenceTable(P string) {
 			case ret != nil:
 				if c, ok := ev.ret(ret, 0).(*ssa.Call); ok {
 					if sc := c.Common().StaticCallee(); sc != nil && (sc.String() == "errors.New" || sc.String() == "fmt.Errorf" || strings.HasSuffix(sc.String(), "errors.New") || strings.HasSuffix(sc.String(), "errors.Errorf")) {
+						got = true
+					}
+				}
+				// a package-level sentinel (`var errX = errors.New(…)`) is an error too
+				if u, ok := ev.ret(ret, 0).(*ssa.UnOp); ok && u.Op == token.MUL {
+					if _, isG := u.X.(*ssa.Global); isG && u.Type().String() == "error" {
 						got = true
 					}
 				}
